@@ -141,7 +141,7 @@ var pureExternPrefixes = []string{
 	"(*github.com/google/pprof/internal/plugin", "io.", "sync.", "(*sync.", "sync/atomic.", "(*sync/atomic.",
 	"html.", "encoding/hex.", "github.com/ianlancetaylor/demangle.", "(*strings.Reader).", "net/http.Error", "slices.", "maps.", "cmp.",
 	"html/template.", "runtime.", "os/exec.", "(*os/exec.", "(*bufio.", "bufio.", "encoding/binary.", "(encoding/binary.", "hash/", "(*hash/", "crypto/",
-	"internal/", "compress/", "(*compress/", "encoding/json.", "text/tabwriter.", "(*text/tabwriter.",
+	"internal/", "debug/", "(*debug/", "compress/", "(*compress/", "encoding/json.", "text/tabwriter.", "(*text/tabwriter.",
 }
 
 // externs that write through their arguments
@@ -183,6 +183,9 @@ func (p *Prog) computeModSet(f *ssa.Function, ms *ModSet, visiting map[*ssa.Func
 			}
 		}
 	}
+	if f.Pkg == nil && f.Blocks != nil && f.Synthetic != "" {
+		inPprof = true // promoted-method wrappers and bound-method thunks: analyse the body
+	}
 	if f.Blocks == nil || !inPprof {
 		full := f.String()
 		if isPureExtern(full) {
@@ -201,8 +204,31 @@ func (p *Prog) computeModSet(f *ssa.Function, ms *ModSet, visiting map[*ssa.Func
 				ms.addCellsOf(t.Elem())
 				wrote = true
 			case *types.Interface:
-				ms.all = true
-				ms.unknown[full] = true
+				// the function may call the argument's methods: in-module implementations contribute their
+				// effects; outside implementations write only their own state and the other arguments (assumed)
+				if t.NumMethods() == 0 {
+					ms.all = true
+					ms.unknown[full] = true
+					continue
+				}
+				p.assumed["implementations of interfaces outside the module write only memory reachable from the call arguments"] = true
+				for mi := 0; mi < t.NumMethods(); mi++ {
+					for _, fn := range p.implementations(t, t.Method(mi)) {
+						if visiting[fn] {
+							continue
+						}
+						if cached, ok := p.modsets[fn]; ok {
+							ms.union(cached)
+							continue
+						}
+						visiting[fn] = true
+						sub := newModSet()
+						p.modsets[fn] = sub
+						p.computeModSet(fn, sub, visiting)
+						delete(visiting, fn)
+						ms.union(sub)
+					}
+				}
 			}
 		}
 		_ = wrote
@@ -352,8 +378,7 @@ func (p *Prog) callMods(c *ssa.CallCommon, ms *ModSet, visiting map[*ssa.Functio
 			ms.allocates = true
 			return
 		}
-		ms.all = true
-		ms.unknown["invoke "+name+" @"+pos] = true
+		p.invokeMods(c, ms, visiting, pos)
 		return
 	}
 	callee := c.StaticCallee()
@@ -395,8 +420,11 @@ func (p *Prog) callMods(c *ssa.CallCommon, ms *ModSet, visiting map[*ssa.Functio
 				return
 			}
 		}
-		// local closure variable? find the MakeClosure feeding it
-		if fn := closureOrigin(c.Value); fn != nil {
+		// package-level function variable assigned once, in the initialiser (test seams such as elfOpen)
+		if fn := p.globalFuncInit(c.Value); fn != nil {
+			p.assumed["package-level function variables assigned only in the package initialiser keep that value"] = true
+			callee = fn
+		} else if fn := closureOrigin(c.Value); fn != nil {
 			callee = fn
 		} else {
 			ms.all = true
@@ -531,4 +559,198 @@ func (vc *VC) loopModSet(fr *frame, l *LoopInfo) *ModSet {
 		}
 	}
 	return ms
+}
+
+// uiMethods: methods of plugin.UI; assumed (listed) not to write pprof memory: they format or read text.
+func isUIMethod(name string) bool {
+	return strings.HasPrefix(name, "(github.com/google/pprof/internal/plugin.UI).") || strings.HasPrefix(name, "(github.com/google/pprof/driver.UI).")
+}
+
+// invokeMods: effects of a dynamically dispatched call. In-module implementations (class hierarchy over
+// every named type of the module) contribute their own modification sets; implementations outside the
+// module are assumed (listed assumption) to write only memory reachable from the call's arguments.
+func (p *Prog) invokeMods(c *ssa.CallCommon, ms *ModSet, visiting map[*ssa.Function]bool, pos string) {
+	name := c.Method.FullName()
+	ms.allocates = true
+	if isUIMethod(name) {
+		p.assumed["plugin.UI methods do not write pprof memory"] = true
+		return
+	}
+	iface, _ := c.Value.Type().Underlying().(*types.Interface)
+	if iface == nil {
+		ms.all = true
+		ms.unknown["invoke "+name+" @"+pos] = true
+		return
+	}
+	for _, fn := range p.implementations(iface, c.Method) {
+		if visiting[fn] {
+			continue
+		}
+		if cached, ok := p.modsets[fn]; ok {
+			ms.union(cached)
+			continue
+		}
+		visiting[fn] = true
+		sub := newModSet()
+		p.modsets[fn] = sub
+		p.computeModSet(fn, sub, visiting)
+		delete(visiting, fn)
+		ms.union(sub)
+	}
+	p.assumed["implementations of interfaces outside the module write only memory reachable from the call arguments"] = true
+	seen := map[string]bool{}
+	for _, a := range c.Args {
+		t := a.Type()
+		if mi, ok := a.(*ssa.MakeInterface); ok {
+			t = mi.X.Type()
+		}
+		if !ms.reach(t, seen, 0) {
+			ms.all = true
+			ms.unknown["invoke "+name+" with an argument of unknown dynamic type @"+pos] = true
+			return
+		}
+	}
+}
+
+// reach adds every cell reachable from a value of type t through pointers, slices and maps. false: not enumerable.
+func (m *ModSet) reach(t types.Type, seen map[string]bool, depth int) bool {
+	k := typeKey(t)
+	if seen[k] {
+		return true
+	}
+	seen[k] = true
+	if depth > 12 {
+		return false
+	}
+	switch u := t.Underlying().(type) {
+	case *types.Basic:
+		return true
+	case *types.Pointer:
+		m.addCellsOf(u.Elem())
+		if at, ok := u.Elem().Underlying().(*types.Array); ok {
+			return m.reach(at.Elem(), seen, depth+1)
+		}
+		return m.reach(u.Elem(), seen, depth+1)
+	case *types.Slice:
+		m.addCellsOf(u.Elem())
+		return m.reach(u.Elem(), seen, depth+1)
+	case *types.Array:
+		return m.reach(u.Elem(), seen, depth+1)
+	case *types.Map:
+		m.maps[typeKey(u)] = u
+		return m.reach(u.Key(), seen, depth+1) && m.reach(u.Elem(), seen, depth+1)
+	case *types.Struct:
+		for i := 0; i < u.NumFields(); i++ {
+			if !m.reach(u.Field(i).Type(), seen, depth+1) {
+				return false
+			}
+		}
+		return true
+	case *types.Signature:
+		return true // function values are treated as pure (funcvalues=pure)
+	case *types.Interface:
+		return isErrorType(t)
+	case *types.Chan:
+		return false
+	}
+	return false
+}
+
+// implementations: methods named like m of every in-module named type (or pointer to it) implementing iface.
+func (p *Prog) implementations(iface *types.Interface, m *types.Func) []*ssa.Function {
+	key := iface.String() + "#" + m.Name()
+	if r, ok := p.implCache[key]; ok {
+		return r
+	}
+	var out []*ssa.Function
+	var paths []string
+	for path := range p.SSAPkgs {
+		paths = append(paths, path)
+	}
+	sort.Strings(paths)
+	for _, path := range paths {
+		sp := p.SSAPkgs[path]
+		if sp == nil {
+			continue
+		}
+		var names []string
+		for n := range sp.Members {
+			names = append(names, n)
+		}
+		sort.Strings(names)
+		for _, n := range names {
+			tn, ok := sp.Members[n].(*ssa.Type)
+			if !ok {
+				continue
+			}
+			if _, isIface := tn.Type().Underlying().(*types.Interface); isIface {
+				continue
+			}
+			for _, T := range []types.Type{tn.Type(), types.NewPointer(tn.Type())} {
+				if !types.Implements(T, iface) {
+					continue
+				}
+				ms := p.SSA.MethodSets.MethodSet(T)
+				for i := 0; i < ms.Len(); i++ {
+					if sel := ms.At(i); sel.Obj().Name() == m.Name() {
+						if fn := p.SSA.MethodValue(sel); fn != nil {
+							out = append(out, fn)
+						}
+					}
+				}
+				break
+			}
+		}
+	}
+	p.implCache[key] = out
+	return out
+}
+
+// globalFuncInit: v is a load of a package-level variable of function type whose only store in the whole
+// package is `var g = f` in the initialiser; returns f.
+func (p *Prog) globalFuncInit(v ssa.Value) *ssa.Function {
+	u, ok := v.(*ssa.UnOp)
+	if !ok {
+		return nil
+	}
+	g, ok := u.X.(*ssa.Global)
+	if !ok || g.Pkg == nil {
+		return nil
+	}
+	var res *ssa.Function
+	count := 0
+	for _, m := range g.Pkg.Members {
+		f, ok := m.(*ssa.Function)
+		if !ok {
+			continue
+		}
+		fns := append([]*ssa.Function{f}, f.AnonFuncs...)
+		for _, fn := range fns {
+			for _, b := range fn.Blocks {
+				for _, in := range b.Instrs {
+					st, ok := in.(*ssa.Store)
+					if !ok || st.Addr != g {
+						continue
+					}
+					count++
+					if f.Name() != "init" {
+						return nil
+					}
+					val := st.Val
+					if ct, ok := val.(*ssa.ChangeType); ok {
+						val = ct.X
+					}
+					if sf, ok := val.(*ssa.Function); ok {
+						res = sf
+					} else {
+						return nil
+					}
+				}
+			}
+		}
+	}
+	if count != 1 {
+		return nil
+	}
+	return res
 }
